@@ -1,6 +1,7 @@
 import Driver.Util
 import ZixModel.Model.RingRA
 import ZixModel.Model.Ring
+import ZixModel.Model.RingRAX
 namespace Driver.C04
 open Zix.RingRA
 
@@ -60,6 +61,22 @@ def step (_ : Unit) (ws : List String) : Unit × String :=
       | "rspace" => ((), s!"ret={c - d} r={r} w={w} |{fmtActs n false [.loadAcq]}")
       | _ => ((), "bad-op")
     | _, _, _, _ => ((), "bad-op")
+  | ["explore", bits, len, tries] =>
+    -- search the happens-before machine with the given orders (9 characters, 1 = acquire/release, 0 = relaxed; "observed" = as generated)
+    let o : Option Zix.RingRAX.Orders :=
+      if bits == "observed" then some Zix.RingRAX.Orders.observed
+      else match bits.toList.map (· == '1') with
+        | [a, b, c, d, e, f, g, h, i] => some ⟨a, b, c, d, e, f, g, h, i⟩
+        | _ => none
+    match o, len.toNat?, tries.toNat? with
+    | some o, some len, some tries =>
+      match Zix.RingRAX.explore o len tries with
+      | none => ((), "explore none")
+      | some (name, n, seed, k, v) =>
+        let sched := (Zix.RingRAX.schedule seed len).take k
+        let txt := " ".intercalate (sched.map (fun c => (if c.tid == .writer then "W" else "R") ++ toString c.fresh))
+        ((), s!"explore found scenario={name} ring-size={n} seed={seed} steps={k} verdict=[{v}] schedule=[{txt}]")
+    | _, _, _ => ((), "bad-op")
   | ["soak", _, _, _] => ((), "soak errors=0 left=0")
   | _ => ((), "bad-op")
 
